@@ -8,9 +8,13 @@ from c10 import chunks
 
 LEVEL = "exploration"
 
-IGN = ["// breadlog:ignore", "//breadlog:ignore", "//   BreadLog:IGNORE  ", "/* breadlog:ignore */", "/*breadlog:ignore*/"]
+IGN = ["// breadlog:ignore", "//breadlog:ignore", "//   BreadLog:IGNORE  ", "/* breadlog:ignore */", "/*breadlog:ignore*/",
+       # white space that is not ASCII (a no-break space typed by accident, an ideographic space): still "surrounding whitespace"
+       "//\u00a0breadlog:ignore", "/*\u3000breadlog:ignore\u3000*/"]
 NOKVP = [s.replace("ignore", "no-kvp").replace("IGNORE", "NO-KVP") for s in IGN]
-NOND = ["// note", "// breadlog:ignore please", "// breadlog:ignored", "/// breadlog:ignore", "/* breadlog: ignore */", "// breadlog:no-kvp x"]
+NOND = ["// note", "// breadlog:ignore please", "// breadlog:ignored", "/// breadlog:ignore", "/* breadlog: ignore */", "// breadlog:no-kvp x",
+        # other text that is not ASCII
+        "// breadlog:ignore ✓", "/* ⚠ breadlog:ignore */", "// breadlog:ignore…", "// breadlog:no-kvp （無視）", "// ｂreadlog:ignore"]
 BLANK = ["", "   ", "\t"]
 CODE = ["let a = 1;"]
 # a directive comment that trails code on the nearest non-blank line before the statement is still "a comment on that line"
@@ -92,7 +96,7 @@ def run(tier, v):
     pool.close()
     v.count(agg["n"])
     v.coverage["distinct_nontrivial"] += agg["distinct"]
-    v.subspace("all sequences of 0..%d lines from {5 ignore spellings, 5 no-kvp spellings, 6 non-directives, 3 blank lines, code, 6 code lines with a trailing comment} before statement "
+    v.subspace("all sequences of 0..%d lines from {7 ignore spellings, 7 no-kvp spellings (2 padded with non-ASCII white space), 11 non-directives (5 with non-ASCII extra text), 3 blank lines, code, 6 code lines with a trailing comment} before statement "
                "blocks {1,2,1+1,1+2,2+1,2+2 statements} x trailing directive {none,same line,next line} x eol x style x indentation x macro set; "
                "plus length %d with the other dimensions reduced" % (3 if tier == "thorough" else 2, 4 if tier == "thorough" else 3),
                agg["n"], exhaustive=True, files_with_statements_expected=agg["nonvacuous"])
